@@ -271,17 +271,10 @@ func SemHistories(h *Hist, seed int64, runs int, stats map[string]int) {
 	for run := 0; run < runs; run++ {
 		r := rand.New(rand.NewSource(seed*32452843 + int64(run)))
 		capN, capS := 2+r.Intn(3), 4+r.Intn(5)
-		var mu sync.Mutex
-		warned := map[int]bool{}
-		cur := map[uint64]int{}
-		_ = cur
-		var s *datasemaphore.DataSemaphore
 		warnCh := make(chan struct{}, 64)
-		s = datasemaphore.New(dag.Metric{Num: idx.Event(capN), Size: uint64(capS)}, func(received, processing, releasing dag.Metric) {
+		s := datasemaphore.New(dag.Metric{Num: idx.Event(capN), Size: uint64(capS)}, func(received, processing, releasing dag.Metric) {
 			warnCh <- struct{}{}
 		})
-		_ = mu
-		_ = warned
 		h.Reset(rec{"scen": run + 1, "cap": rec{"num": capN, "size": capS}})
 		G := 2 + r.Intn(3)
 		per := 2 + r.Intn(3)
@@ -301,8 +294,6 @@ func SemHistories(h *Hist, seed int64, runs int, stats map[string]int) {
 					case 4, 5, 6:
 						// the warning callback runs inside Release under the semaphore's lock
 						h.Call(g, rec{"op": "release", "w": wj})
-						before := len(warnCh)
-						_ = before
 						wd := releaseWarned(s, w, warnCh)
 						h.Ret(g, rec{"warned": wd})
 					case 7, 8:
